@@ -20,6 +20,7 @@ LEAVES = [
     '{% echo_tag v "a b" %}',
     "{% incl_tag v %}",
     '{% firstof u v "z" %}',
+    '{% firstof u "5\\" n" %}',  # balanced quotes with a backslash-escaped quote inside the string literal
 ]
 LEAVES_ERR = ["{% bogus %}", "{{ v|nofilter }}", "{% endif %}"]
 INCLUDES = ['{% include "inc" %}', '{% include "inc" with a=v only %}']
